@@ -122,6 +122,9 @@ class Transport(object):
         if data:
             self.written.append((self.sim.now, bytes(data)))
             self.sim.log('write', self.connector.id, bytes(data))
+            probe = self.sim.probe
+            if probe is not None and probe() is not self.protocol:
+                self.sim.log('stale-write', self.connector.id, bytes(data))
 
     def writeSequence(self, seq):
         for d in seq:
@@ -261,6 +264,7 @@ class SimReactor(object):
         self.errors = []          # [(t, where, exc_type, summary)]
         self.livelock = False
         self.running = True
+        self.probe = None         # optional callable -> the protocol object the agent's FSM tracks
 
     def install(self):
         _proxy._install(self)
@@ -287,6 +291,11 @@ class SimReactor(object):
 
     def connectTCP(self, host, port, factory, timeout=30, bindAddress=None):
         c = Connector(self, len(self.connectors) + 1, host, port, factory, timeout, bindAddress)
+        # snapshot for C12: connections / attempts that are still open at the moment of the call
+        others = [(o.id, o.state) for o in self.connectors
+                  if o.state == 'connecting' or (o.state == 'connected' and o.transport is not None and
+                                                 o.transport.connected and not o.transport.disconnecting)]
+        self.log('connect-while-open', c.id, others) if others else None
         self.connectors.append(c)
         c.connect()
         return c
